@@ -116,8 +116,12 @@ class RecorderRoles(object):
         self.force_flag = self._one('force-flag-field', [
             _self_attr(n.value) for n in ast.walk(fp.node) if isinstance(n, ast.Return) and _self_attr(n.value)])
         en = self._m('enable_recording')
-        self.enabled = self._one('enabled-field', [
-            _self_attr(n.targets[0]) for n in ast.walk(en.node) if isinstance(n, ast.Assign) and _self_attr(n.targets[0])])
+        en_fields = [_self_attr(n.targets[0]) for n in ast.walk(en.node) if isinstance(n, ast.Assign) and _self_attr(n.targets[0])]
+        en_true = [_self_attr(n.targets[0]) for n in ast.walk(en.node) if isinstance(n, ast.Assign) and _self_attr(n.targets[0]) and
+                   isinstance(n.value, ast.Constant) and n.value.value is True]
+        if len(set(en_fields)) > 1 and len(set(en_true)) == 1:
+            en_fields = en_true       # the switch is the field set to True; anything else written there is not the switch
+        self.enabled = self._one('enabled-field', en_fields)
         self.class_params = self._one('class-parameters-table', [
             _self_attr(n.func.value) for n in ast.walk(self.start.node)
             if isinstance(n, ast.Call) and isinstance(n.func, ast.Attribute) and n.func.attr == 'get' and
